@@ -290,7 +290,16 @@ func c15Checker(c *Ctx, f *Fn, isZip bool) {
 	// accept is dominated by the size accounting condition
 	acct := c15SizeAccounting(info)
 	r := g.gate(acct, accept, barrier, body)
-	c.check("checker.total-size-on-every-entry", f.Name, g.pos(head), r.found && !r.bypass,
+	passAll := r.found
+	for a := range accept {
+		// every path of one iteration from the loop body to the append
+		// crosses the accounting condition
+		rr := g.reach([]int{body}, func(id int) bool { return setOf(r.condNodes)[id] || id == head }, nil)
+		if rr[a] {
+			passAll = false
+		}
+	}
+	c.check("checker.total-size-on-every-entry", f.Name, g.pos(head), passAll,
 		"every accepted entry must pass through the total-size accounting")
 	noMod := g.find(func(n ast.Node) bool {
 		as, ok := n.(*ast.AssignStmt)
